@@ -99,16 +99,10 @@ func (s *timerShared) ran(id int, seq uint64, t int64) {
 }
 
 //go:norace
-func (s *timerShared) snapshot() []trun { return append([]trun(nil), s.runs[:s.n]...) }
+func (s *timerShared) snapshot() []trun { return snapCopy(s.runs[:s.n]) }
 
 //go:norace
-func snapshotTOps(recs [][]topRec) []topRec {
-	var out []topRec
-	for _, r := range recs {
-		out = append(out, r...)
-	}
-	return out
-}
+func snapshotTOps(recs [][]topRec) []topRec { return snapFlatten(recs) }
 
 type timerHist struct {
 	Ops  []topRec
@@ -701,6 +695,9 @@ func genC20(r *simrt.Rand, tier string, idx uint64) Workload {
 	}
 	w.P = genSimSpec(r, 10*total+10)
 	w.P.MaxSteps = 8000
+	if 80*total > w.P.MaxSteps {
+		w.P.MaxSteps = 80 * total // long bursts (thorough: up to 150 calls) need more scheduling steps
+	}
 	w.P.HorizonNs = int64(time.Hour)
 	if faulty {
 		w.P.TimeFaults = true
